@@ -301,7 +301,7 @@ def dim_key(dim) -> str:
     try:
         from sympy.physics.units.systems.si import dimsys_SI
         deps = dimsys_SI.get_dimensional_dependencies(dim)
-        return "deps:" + ",".join(f"{k}^{v}" for k, v in sorted((str(k), str(v)) for k, v in deps.items()))
+        return "deps:" + ",".join(f"{k}^{v}" for k, v in sorted((str(getattr(k, "name", k)), str(v)) for k, v in deps.items()))
     except Exception:  # pylint: disable=broad-except
         return "str:" + str(dim)
 
